@@ -141,6 +141,7 @@ def run_arrays(rng, n_cases, res):
         shape = rng.choice([(4,), (2, 2)])
         cases.append({'f': [s, n, nf], 'codes': codes, 'shape': list(shape)})
         if rng.random() < 0.5: cases[-1]['rewrite'] = rng.choice(['view', 'view', 'sort', 'setitem'])
+        if rng.random() < 0.5: cases[-1]['strwrite'] = [rng.choice(['bin', 'hex']), rng.choice(['mask', 'index_list', 'index_array', 'slice', 'elem', 'neg_step'])]
     run_array_cases(cases, res)
 
 def run_array_cases(cases, res):
@@ -191,6 +192,16 @@ def run_array_cases(cases, res):
                     want_ = {'bin': [py_bin(n, t) for t in after], 'hex': ['0x' + py_hex(n, t) for t in after], 'bin_dot': [insert_point(py_bin(n, t), nf) for t in after]}[kind]
                     if got_ != want_:
                         res.fail(dict(c, render=kind), 'C11: bin()/hex() of an array after its codes were changed in place (%s) is not the image of the codes it holds' % mode, expected=want_, got=got_); break
+            if c.get('strwrite') and shape == (4,):
+                # ONE rendered string written raw into a selection of the array (a mask, an index list, a slice, an element): every selected element takes its code
+                kind_, sel_ = c['strwrite']; src_code = codes[0]
+                img = ('0b' + py_bin(n, src_code)) if kind_ == 'bin' else ('0x' + py_hex(n, src_code))
+                idx_ = {'mask': np.array([False, True, True, False]), 'index_list': [3, 1], 'index_array': np.array([2, 3]), 'slice': slice(1, 3), 'elem': 2, 'neg_step': slice(None, None, -2)}[sel_]
+                hit = {'mask': [1, 2], 'index_list': [3, 1], 'index_array': [2, 3], 'slice': [1, 2], 'elem': [2], 'neg_step': [3, 1]}[sel_]
+                d_ = A.mk(fx, np, s, n, nf, codes, shape=shape); d_.set_val(img, raw=True, index=idx_)
+                want_ = [src_code if i in hit else t for i, t in enumerate(codes)]
+                if lib.codes_of(d_) != want_:
+                    res.fail(c, 'C11: a rendered %s string written raw into a selection (%s) of an array does not give every selected element its code' % (kind_, sel_), expected=want_, got=lib.codes_of(d_))
         except Exception as e:
             res.fail(c, 'C11: rendering or parsing an array raised %s' % lib.exc_name(e), got=str(e)[:300])
 
